@@ -61,7 +61,7 @@ var mkNames = []string{"b", "wave", "i2", "shake", "é", "日本", "_x", "color"
 var textPools = map[string][]string{
 	"ascii":     {"a", "b", "hello", "X", "z9", "it's", "ok!", "n,m", "-", "+", "(x)", "100%"},
 	"multibyte": {"é", "ß", "Ωμέγα", "ж", "ñandú"},
-	"cjk":       {"日本", "語", "한글"},
+	"cjk":       {"日本", "語", "한글", "\ufffd", "a\ufffdb"},
 	"astral":    {"😀", "𝔘𝔫", "🜲"},
 	"blank":     {" ", "  ", " ", "\t"},
 	// backslashes that are NOT escapes (only \[ and \] are): each one is a character of the text. Every entry
